@@ -247,3 +247,23 @@ Theorem first_call_all_failed_refuted :
   /\ search_pinned w_firstcall = search_fixed w_firstcall
   /\ ok_C04 [wF; wT] [CP 1; CObj; CId; CStatus] [[Num 5; Str 7; Num 0; Str 9]; [Num 6; Empty; Num 1; Str 9]] = false.
 Proof. vm_compute. repeat split; try lia; repeat constructor. Qed.
+
+(* ---------- several searches on ONE evaluator (num_objective survives Search.__init__) ---------- *)
+Definition outcome_spec (jobs : list job) (o : outcome) : Prop :=
+  match o with NoTable => jobs = [] | Raised => False | Table h rows => TableSpec jobs h rows end.
+
+Theorem reused_evaluator evs1 evs2 : Hyps evs1 -> Hyps evs2 -> kind_of (all_jobs evs1) = kind_of (all_jobs evs2) ->
+  exists o1 o2, searches_from infer_fixed None [evs1; evs2] = [o1; o2]
+    /\ outcome_spec (all_jobs evs1) o1 /\ outcome_spec (all_jobs evs2) o2.
+Proof.
+  intros (A1 & A2 & A3 & A4) (B1 & B2 & B3 & B4) Hk. cbn [searches_from].
+  eexists. eexists. split; [reflexivity|]. split.
+  - pose proof (search_fixed_from_spec None evs1 (or_introl eq_refl) A1 A2 A3 A4) as H. cbn zeta in H.
+    unfold search_fixed_from in H. destruct (final (snd (run_from infer_fixed None evs1))); cbn [outcome_spec]; [exact H|exact H|].
+    destruct H as [H _]. exact H.
+  - assert (Hn : weakn (kind_of (all_jobs evs2)) (nobj (fst (run_from infer_fixed None evs1)))).
+    { rewrite <- Hk. apply nobj_after_weak; try assumption. left. reflexivity. }
+    pose proof (search_fixed_from_spec _ evs2 Hn B1 B2 B3 B4) as H. cbn zeta in H.
+    unfold search_fixed_from in H. destruct (final (snd (run_from infer_fixed _ evs2))); cbn [outcome_spec]; [exact H|exact H|].
+    destruct H as [H _]. exact H.
+Qed.
